@@ -110,3 +110,41 @@ fn c15_wrapped_tasks_are_distinct_tasks() {
   let a = A(x); let ba = Box::new(A(y)); let ra = Rc::new(A(y)); let aa = Arc::new(A(y));
   assert!(!teq(&a, &ba) && !teq(&a, &ra) && !teq(&a, &aa) && !teq(&ba, &ra) && !teq(&ra, &aa));
 }
+
+// ---- C14: the trait-object key / value wrappers of the map resource -------------------------------------------------------------
+use pie::resource::map::{MapKeyObjToObj, MapKeyToObj, MapValueObj};
+
+/// a `MapKeyObjToObj` denotes the key it was built from, whichever of the four constructors built it: two of them are the same map
+/// key exactly when the underlying keys have the same type and are equal, and equal keys hash alike
+#[kani::proof]
+fn c14_obj_keys_built_by_any_constructor_denote_the_same_key() {
+  let x: u8 = kani::any(); let y: u8 = kani::any();
+  let by_value = MapKeyObjToObj::from(A(x));
+  let by_box: MapKeyObjToObj = Box::new(A(y)).into();
+  let by_new = MapKeyObjToObj::new(Box::new(A(y)) as Box<dyn KeyObj>);
+  let by_dyn: MapKeyObjToObj = (Box::new(A(y)) as Box<dyn KeyObj>).into();
+  assert!((by_value == by_box) == (x == y));
+  assert!((by_value == by_new) == (x == y));
+  assert!((by_value == by_dyn) == (x == y));
+  assert!(by_box == by_new && by_new == by_dyn && by_box == by_dyn);
+  let other_type = MapKeyObjToObj::from(B(x));
+  let other_boxed: MapKeyObjToObj = Box::new(B(x)).into();
+  assert!(by_value != other_type && by_box != other_boxed && other_type == other_boxed);
+  let (mut h1, mut h2, mut h3) = (Rec::new(), Rec::new(), Rec::new());
+  by_value.hash(&mut h1); by_box.hash(&mut h2); A(x).hash(&mut h3);
+  assert!(same_stream(&h1, &h3));
+  if x == y { assert!(same_stream(&h1, &h2)); }
+  // the typed wrapper is the key itself
+  assert!((MapKeyToObj::new(A(x)) == MapKeyToObj::from(A(y))) == (x == y));
+}
+
+/// boxed map values compare by type and value, and a clone is equal to its original
+#[kani::proof]
+fn c14_obj_values_compare_by_type_and_value() {
+  let x: u8 = kani::any(); let y: u8 = kani::any();
+  let a: Box<dyn MapValueObj> = Box::new(A(x)); let a2: Box<dyn MapValueObj> = Box::new(A(y)); let b: Box<dyn MapValueObj> = Box::new(B(x));
+  assert!((a.as_ref() == a2.as_ref()) == (x == y));
+  assert!(a.as_ref() != b.as_ref() && b.as_ref() != a.as_ref());
+  let c = a.clone();
+  assert!(c.as_ref() == a.as_ref());
+}
